@@ -965,6 +965,22 @@ func (c *SpecCtx) call(n *ast.CallExpr) SV {
 		sub := c.sub()
 		sub.inLoop = true
 		return sub.eval(n.Args[0])
+	case "nevercancelled":
+		// nevercancelled(x): x was produced by context.WithoutCancel / Background on this path
+		x := c.coerceTo(c.eval(n.Args[0]), SAny)
+		if _, ok := c.st.Ghost["ctxnever:"+x.S]; ok {
+			return SV{V: True}
+		}
+		return SV{V: False}
+	case "ctxvalues":
+		x := c.coerceTo(c.eval(n.Args[0]), SAny)
+		r := &Run{e: e}
+		return SV{V: r.ctxValues(x)}
+	case "heldnone":
+		if len(c.st.Locks) == 0 {
+			return SV{V: True}
+		}
+		return SV{V: False}
 	case "nolocks":
 		if len(c.st.Locks) == 0 {
 			return SV{V: True}
